@@ -1585,7 +1585,13 @@ class IndexGitShaMap(GitShaMap):
         for _, key, _value in self._index.iter_entries(
             (b"commit", revid, b"X") for revid in revids
         ):
-            missing_revids.remove(key[1])
+            missing_revids.discard(key[1])
+        if self._builder is not None and self._builder is not self._index:
+            # Revisions added in the write group that is still open.
+            for _, key, _value in self._builder.iter_entries(
+                [(b"commit", revid, b"X") for revid in missing_revids]
+            ):
+                missing_revids.discard(key[1])
         return missing_revids
 
     def sha1s(self):
